@@ -13,6 +13,7 @@
 // After the listed steps the exchange is drained fault-free (channel to the receiver first) until
 // nothing is in flight; every drained delivery is logged like a scripted one.  See
 // spec/IbbTrace.tla for the record format.
+#include "ibb_device.h"
 #include "relay.h"
 
 #include "QXmppIbbIq.h"
@@ -164,7 +165,7 @@ struct Exec {
     std::mt19937_64 rng;
 
     QBuffer sendBuf;  // the devices outlive the clients (and so the jobs that point to them)
-    CountingBuffer recvBuf;
+    FaultyBuffer recvBuf;
     std::unique_ptr<TestClient> a, ownB;
     TestClient *b = nullptr;   // the receiving client (shared by the two lanes of a twin execution)
     QXmppTransferManager *ma = nullptr, *mb = nullptr;
@@ -558,8 +559,13 @@ void runBehaviour(Ctx &ctx, const QString &caseId, const QJsonObject &beh, int i
     const bool smallFile = size <= (1 << 20);
 
     const QString ann = beh["ann"].toString("both");
-    ctx.reset(caseId, { { "n", n }, { "size", double(size) }, { "bs", bs }, { "sender", script ? "script" : "real" }, { "ann", ann } });
+    const QString dev = beh["dev"].toString("all");
+    const int devAt = dev == "all" ? 0 : beh["devAt"].toInt(1);
+    ctx.reset(caseId, { { "n", n }, { "size", double(size) }, { "bs", bs }, { "sender", script ? "script" : "real" }, { "ann", ann },
+                        { "dev", dev }, { "devAt", devAt } });
     Exec x(ctx, file, bs, script, seed ^ 0x9e3779b97f4a7c15ULL, ann);
+    x.recvBuf.mode = dev;
+    x.recvBuf.at = devAt;
 
     auto emitStep = [&](QJsonObject ev) {
         ev["o"] = x.observe(smallFile);
@@ -711,7 +717,7 @@ void runTwin(Ctx &ctx, const QString &caseId, const QJsonObject &beh, int idx)
     for (int i = 0; i < 2; i++) {
         Exec &x = *lanes[i];
         ctx.reset(caseId + (i ? "b" : "a"), { { "n", int((sizes[i] + bs - 1) / bs) }, { "size", double(sizes[i]) }, { "bs", bs },
-                                              { "sender", "script" }, { "ann", ann }, { "lane", i + 1 }, { "jid", x.myJid } });
+                                              { "sender", "script" }, { "ann", ann }, { "dev", "all" }, { "devAt", 0 }, { "lane", i + 1 }, { "jid", x.myJid } });
         for (const auto &ln : std::as_const(lines[i])) {
             ctx.emit_(ln);
         }
